@@ -2,6 +2,7 @@ package props
 
 import (
 	"encoding/base64"
+	"encoding/json"
 	"fmt"
 	"net/url"
 	"os"
@@ -323,13 +324,32 @@ func RunC06(tier, replay string) int {
 		globals = []secReq{rep.Case.GlobalReq}
 		ops = []secReq{rep.Case.OpReq}
 	}
-	docs := make([]J, len(globals))
+	// every global requirement with the default principal; a subset again with a typed principal
+	// (--principal models.Principal), which makes the generator wrap the authenticators
+	typedFrom := len(globals)
+	for _, g := range append([]secReq{}, globals...) {
+		str := g.String()
+		if tier == "thorough" || replay != "" || str == "b" || str == "b&kh" || str == "o[r]" || str == "kq&o[r,w]" {
+			globals = append(globals, g)
+		}
+	}
+	if replay != "" {
+		typedFrom = 1
+	}
+	specs := make([]ServerSpec, len(globals))
 	for i, g := range globals {
-		docs[i] = c06Doc(schemes, g, ops)
+		d := c06Doc(schemes, g, ops)
+		if i >= typedFrom {
+			at(d, "definitions")["Principal"] = J{"type": "object", "properties": J{"name": J{"type": "string"}}}
+			specs[i] = ServerSpec{Doc: d, Args: []string{"--principal", "models.Principal"}}
+		} else {
+			specs[i] = ServerSpec{Doc: d}
+		}
 	}
 	r.Extra["servers(global requirements)"] = len(globals)
+	r.Extra["of_which_with_typed_principal"] = len(globals) - typedFrom
 	r.Extra["operations_per_server"] = len(ops)
-	cases := GenServers(s, docs)
+	cases := GenServersSpec(s, specs)
 	BuildServers(s, cases)
 	cl := allCreds(schemes)
 	r.Extra["credential_sets"] = len(cl)
@@ -374,7 +394,11 @@ func RunC06(tier, replay string) int {
 			g, o := globals[gi], ops[m.oi]
 			reach, okP, open := refsec(g, o, m.c)
 			cs := c06Case{Global: g.String(), Op: o.String(), Creds: m.c, OpID: fmt.Sprintf("s%04d", m.oi), GlobalReq: g, OpReq: o}
-			key := fmt.Sprintf("%s|%s|%s", g, o, credClass(m.c))
+			typed := ""
+			if gi >= typedFrom {
+				typed = "typed-principal "
+			}
+			key := fmt.Sprintf("%s%s|%s|%s", typed, g, o, credClass(m.c))
 			out := "denied"
 			if reach {
 				out = "reached"
@@ -384,7 +408,7 @@ func RunC06(tier, replay string) int {
 			}
 			viol := func(kind, what string) {
 				out = "VIOLATION:" + kind
-				r.Violate(evid.Violation{Signature: fmt.Sprintf("%s | global=%s | op=%s | %s", kind, g, o, credClass(m.c)), What: fmt.Sprintf("%s: global security %s, operation security %s, credentials %s: %s", kind, g, o, credClass(m.c), what), Case: cs,
+				r.Violate(evid.Violation{Signature: fmt.Sprintf("%s%s | global=%s | op=%s | %s", typed, kind, g, o, credClass(m.c)), What: fmt.Sprintf("%s: global security %s, operation security %s, credentials %s: %s", kind, g, o, credClass(m.c), what), Case: cs,
 					Observed: map[string]interface{}{"status": res[i].Status, "reached": res[i].Reached, "principal": string(res[i].Principal), "auth_calls": res[i].AuthCalls, "body": trunc(res[i].Body, 200)}})
 			}
 			rr := res[i]
@@ -399,6 +423,12 @@ func RunC06(tier, replay string) int {
 				viol("wrong-status", fmt.Sprintf("unauthorized request answered with %d instead of 401/403", rr.Status))
 			case reach && !open && rr.HasPrincipal:
 				p := strings.Trim(string(rr.Principal), `"`)
+				var tp struct {
+					Name string `json:"name"`
+				}
+				if json.Unmarshal(rr.Principal, &tp) == nil && tp.Name != "" {
+					p = tp.Name
+				}
 				okp := false
 				for sc := range okP {
 					if p == "P:"+field[sc] {
